@@ -240,15 +240,24 @@ def run_tie(ck, tf, n_hist, profile, configs=CONFIGS, corpus=(), kwargs_for=None
     for ops_c in corpus:
         cases.append((ops_c["csv"], ops_c["auto"], ops_c["ops"], None))
         meta.append(("corpus", ops_c.get("name")))
-    for h in range(n_hist):
+    # every scenario this check prefers is run ONCE IN EVERY CONFIGURATION, in ADDITION to the random histories (appended after them, so that the random
+    # histories - and what they are known to catch - stay what they were): what a check catches through a scenario does not depend on how the
+    # scenario list or the random stream happens to be laid out
+    upref = list(dict.fromkeys(profile.get("scenario_pref") or [])) if not profile.get("scenario_force") else []
+    n_forced = len(upref) * len(configs)
+    kw_override = {}
+    for h in range(n_hist + 2 * n_forced):
         csv, auto = configs[h % len(configs)]
         kw = kwargs_for(h) if kwargs_for else None
+        if h >= n_hist + n_forced:
+            # ... and once more on the CSV configurations with inserts left in the handle's buffer (flush_on_insert=False)
+            if not csv:
+                continue
+            kw = {"flush_on_insert": False}
+            kw_override[h] = kw
         prof = dict(profile, storage_kwargs=kw) if kw is not None else profile
-        # every scenario this check prefers is run ONCE IN EVERY CONFIGURATION at the head of the run, whatever the random choices further on: what a
-        # check is known to catch does not depend on how the scenario list or the random stream happens to be laid out
-        upref = list(dict.fromkeys(profile.get("scenario_pref") or []))
-        if upref and h < len(upref) * len(configs) and not profile.get("scenario_force"):
-            prof = dict(prof, scenario_force=upref[(h // len(configs)) % len(upref)], p_scenario=1.0)
+        if h >= n_hist:
+            prof = dict(prof, scenario_force=upref[((h - n_hist) // len(configs)) % len(upref)], p_scenario=1.0)
         g = dbgen.Gen((gen_seed << 20) + h, prof)
         ops = sanitize_for(kw if csv else None, g.history(csv))
         cases.append((csv, auto, ops, None))
@@ -260,7 +269,7 @@ def run_tie(ck, tf, n_hist, profile, configs=CONFIGS, corpus=(), kwargs_for=None
         meta.append(("enumerated", len(cases)))
     done, kws, tzs = [], [], []
     for ci, (csv, auto, ops, _) in enumerate(cases):
-        kw = kwargs_for(meta[ci][1]) if (kwargs_for and meta[ci][0] == "gen") else None
+        kw = (kw_override.get(meta[ci][1]) or kwargs_for(meta[ci][1])) if (kwargs_for and meta[ci][0] == "gen") else None
         kws.append(kw if csv else None)
         tz = tz_for(meta[ci][1]) if meta[ci][0] == "gen" else None
         tzs.append(tz)
